@@ -269,3 +269,80 @@ func Harness_C03_Routing_Quick()    { vC03(2, 3, 1, false, vPolQuick) }
 func Harness_C03_Unregister_Quick() { vC03(2, 1, 2, true, vPolQuick) }
 func Harness_C03_Routing_Thorough() { vC03(2, 6, 3, true, vPolicies) }
 func Harness_C03_Three_Thorough()   { vC03(3, 2, 3, true, vPolQuick) }
+
+// a registration shared by three callees under policy first / last /
+// round-robin, with callees unregistering or leaving in any order: "first"
+// and "last" always mean registration order among the callees still present
+func Harness_C03_SharedOrder() {
+	d := newDealer(vNopLog{}, false, true, false)
+	policy := []string{wamp.InvokeFirst, wamp.InvokeLast, wamp.InvokeRoundRobin}[vChoice("invoke", 3)]
+	caller := vNewSess(40, nil, vFeat("caller", map[string]bool{}), 32)
+	var callee [3]*vSess
+	var regID wamp.ID
+	for k := 0; k < 3; k++ {
+		callee[k] = vNewSess(wamp.ID(41+k), nil, vFeat("callee", map[string]bool{"shared_registration": true}), 32)
+		d.register(callee[k].s, &wamp.Register{Request: 1, Procedure: "p.q", Options: wamp.Dict{"invoke": policy}})
+		vSyncDealer(d)
+		rg, n := vFindMsg[*wamp.Registered](callee[k].vDrain())
+		vAssert("registered", n == 1)
+		if n != 1 {
+			return
+		}
+		vAssert("one-shared-registration", k == 0 || rg.Registration == regID)
+		regID = rg.Registration
+	}
+	present := []int{0, 1, 2} // registration order
+	req := wamp.ID(100)
+	// call returns the index of the invoked callee
+	call := func() int {
+		req++
+		d.call(caller.s, &wamp.Call{Request: req, Procedure: "p.q"})
+		vSyncDealer(d)
+		who := -1
+		for k := 0; k < 3; k++ {
+			for _, m := range callee[k].vDrain() {
+				if inv, ok := m.(*wamp.Invocation); ok {
+					vAssert("exactly-one-invocation-per-call", who == -1)
+					who = k
+					d.yield(callee[k].s, &wamp.Yield{Request: inv.Request})
+				}
+			}
+		}
+		vSyncDealer(d)
+		_, nres := vFindMsg[*wamp.Result](caller.vDrain())
+		vAssert("call-completed", nres == 1)
+		return who
+	}
+	check := func() {
+		switch policy {
+		case wamp.InvokeFirst:
+			vAssert("first-is-the-earliest-registered-callee-present", call() == present[0])
+		case wamp.InvokeLast:
+			vAssert("last-is-the-latest-registered-callee-present", call() == present[len(present)-1])
+		default:
+			// one round reaches every callee present exactly once
+			seen := map[int]int{}
+			for i := 0; i < len(present); i++ {
+				seen[call()]++
+			}
+			for _, k := range present {
+				vAssert("round-robin-reaches-each-present-callee-once-per-round", seen[k] == 1)
+			}
+		}
+	}
+	check()
+	for round := 0; round < 2; round++ {
+		i := vChoice("remove", len(present))
+		k := present[i]
+		if vBool("leaves") {
+			d.removeSession(callee[k].s)
+		} else {
+			d.unregister(callee[k].s, &wamp.Unregister{Request: 9, Registration: regID})
+		}
+		vSyncDealer(d)
+		callee[k].vDrain()
+		present = append(present[:i:i], present[i+1:]...)
+		check()
+	}
+	vCover("shared-order-checked")
+}
